@@ -29,6 +29,11 @@
 (*     and Sample(e) (enabled iff e is in the support and has positive probability, or   *)
 (*     the support is a single point).  Arguments come from the menus of the instance;   *)
 (*     functions over the support are tables aligned with the support of the pre-state.  *)
+(*     Operations are functions of their operands: all successors of a state are computed  *)
+(*     from the same `cur` (the branching of the state graph).  The harness replays that     *)
+(*     branching on ONE shared real object per state and re-reads it after every operation:  *)
+(*     an operation that changes its receiver (so that a later a | c, a.normalize(), a.prob  *)
+(*     no longer speak about the measure of the state) is a failure of the clause replayed.  *)
 (* (P) the clauses of the statement as invariants over the last step (see the bottom).   *)
 (* Modes (IOEnv.MODE): "mc" explores all operation chains of length DEPTH over the batch  *)
 (* and emits the expected measure after every step (pipeline A); "trace" re-plays, with   *)
